@@ -109,3 +109,31 @@ var RecPaths = []string{
 	"I8", "I16", "I32", "I64", "I", "U8", "U16", "U32", "U64", "U", "F32", "F64",
 	"S", "Up", "Lo", "T", "In.N", "In.S", "In.T", "P.N", "P.S", "P.T", "Emb.E", "Emb.ES", "Raw", "Der", "Lid",
 }
+
+// GInner / GRec: the record type of the cross-version scenario (C18). It
+// implements the Object interface itself, so the same type is accepted by the
+// pinned release and by the current code.
+type GInner struct {
+	N int16  `sod:"index"`
+	W string `sod:"upper"`
+}
+
+type GRec struct {
+	uuid string
+	Lid  int
+	K    int     `sod:"unique"`
+	N    int32   `sod:"index"`
+	S    string  `sod:"index,lower"`
+	F    float64 `sod:"index"`
+	U    uint16  `sod:"index"`
+	T    time.Time
+	Tags []string
+	M    map[string]int
+	In   GInner
+	P    *GInner
+}
+
+func (g *GRec) UUID() string        { return g.uuid }
+func (g *GRec) Initialize(u string) { g.uuid = u }
+func (g *GRec) Transform()          {}
+func (g *GRec) Validate() error     { return nil }
